@@ -200,9 +200,12 @@ def dataLoop : Nat → List (W Word) → P (List (W Word))
 def macroLoop : Nat → P Unit
   | 0 => pure ()
   | fuel + 1 => do
-    let next ← getAny
-    if next.kind == .directive && directiveFromStr next.payload == some "EndMacro" then pure ()
-    else macroLoop fuel
+    -- an unterminated macro is ignored up to the end of the input (`Err(UnexpectedEOF) => break`)
+    if (← get).items.isEmpty then pure ()
+    else
+      let next ← getAny
+      if next.kind == .directive && directiveFromStr next.payload == some "EndMacro" then pure ()
+      else macroLoop fuel
 
 def pseudoBranch (i : String) (m : FTok) (a b : W Reg) (l : W String) : P Node := do
   pure (.branch (wi i m) a b l (← rawNow))
